@@ -409,6 +409,10 @@ class Interp:
         g = self.ctx.mod_globals(module)
         if name in g:
             return g[name]
+        presets = getattr(self.e, "global_presets", None)
+        if presets and (module.name, name) in presets:
+            g[name] = presets[(module.name, name)]
+            return g[name]
         if name in module.defs:
             # evaluate the (last) defining statement(s) lazily
             fr = Frame(module)
@@ -831,6 +835,8 @@ class Interp:
 
     def e_Subscript(self, n, fr):
         o = self.eval(n.value, fr)
+        if isinstance(o, (FuncVal, Builtin)) and getattr(self.e, "guppy_generic_subscript", False):
+            return o  # Guppy mode: `nothing[T]` is a type application, not an item access
         if isinstance(o, (ClassVal, ExtVal)) or (isinstance(o, Builtin) and o.name in self.e.bclasses):
             # generic alias such as list[int], Generic[T]
             return o
